@@ -4,8 +4,10 @@ package main
 
 import (
 	"bytes"
+	"context"
 	"encoding/json"
 	"fmt"
+	"io"
 	"math/rand"
 	"net/http"
 	"net/http/httptest"
@@ -14,8 +16,12 @@ import (
 	"time"
 
 	"go4.org/jsonconfig"
+	"golang.org/x/crypto/openpgp"
 
+	"perkeep.org/pkg/blob"
 	"perkeep.org/pkg/blobserver"
+	"perkeep.org/pkg/jsonsign"
+	"perkeep.org/pkg/schema"
 	"perkeep.org/pkg/server"
 
 	"verif/idx"
@@ -29,7 +35,8 @@ import (
 //	permanode  a permanode
 //	claim      set-attribute claim on permanode Target whose VALUE is the ref of Mention[0]
 //	           (a genuine schema blob that names a ref in a non-link field)
-//	share      share claim: Target, Transitive, Expires (seconds after world.Epoch, 0 = never)
+//	share      share claim: Target, Transitive, Expires (seconds after world.Epoch, 0 = never);
+//	           Search: a share of a search - a "search" field and NO target (Target = 0)
 //	delete     delete claim of item Target (a share, or another delete = undelete)
 //	chunk      plain bytes; with Mention: plain bytes that contain the text of those refs
 //	bytes/file parts = Parts (blobRef / bytesRef); with Mention: the refs also occur in the
@@ -42,6 +49,7 @@ type SItem struct {
 	Target     int          `json:"target"`
 	Transitive bool         `json:"transitive"`
 	Expires    int          `json:"expires"`
+	Search     bool         `json:"search"`
 	Parts      []world.Part `json:"parts"`
 	Children   []int        `json:"children"`
 	Merge      []int        `json:"merge"`
@@ -77,7 +85,7 @@ func chunkData(id int) string {
 
 // toWorld renders the share world as a verif/world World. Contents that embed refs (mentions,
 // merge sets) are computed from refs, the refs found by the previous pass.
-func toWorld(sw *SWorld, refs map[int]string) *world.World {
+func toWorld(sw *SWorld, refs map[int]string, own map[int]string) *world.World {
 	ref := func(id int) string {
 		if r, ok := refs[id]; ok {
 			return r
@@ -106,6 +114,15 @@ func toWorld(sw *SWorld, refs map[int]string) *world.World {
 				wi.ValRef = it.Mention[0]
 			}
 		case "share":
+			if it.Search {
+				// verif/world has no search shares: build and sign the claim ourselves (once)
+				if _, ok := own[it.ID]; !ok {
+					own[it.ID] = searchShare(it)
+				}
+				wi.Kind = "chunk"
+				wi.Data = own[it.ID]
+				break
+			}
 			wi.Signer = 1
 			wi.Target = it.Target
 			wi.Transitive = it.Transitive
@@ -157,8 +174,9 @@ func toWorld(sw *SWorld, refs map[int]string) *world.World {
 // blobs they name (acyclic: at most depth+1 passes).
 func buildWorld(sw *SWorld, s *world.Signers) *world.Built {
 	refs := map[int]string{}
+	own := map[int]string{}
 	for pass := 0; pass < 12; pass++ {
-		b, err := world.Build(toWorld(sw, refs), s)
+		b, err := world.Build(toWorld(sw, refs, own), s)
 		if err != nil {
 			j, _ := json.Marshal(sw.Items)
 			fatal("building world", sw.Name, err, string(j))
@@ -176,6 +194,56 @@ func buildWorld(sw *SWorld, s *world.Signers) *world.Built {
 	}
 	fatal("world", sw.Name, "does not reach a fixpoint (non-deterministic signing or a reference cycle)")
 	return nil
+}
+
+// ownSigner signs the claims verif/world cannot build, with the same identity as signer 1.
+var ownSigner struct {
+	ent    *openpgp.Entity
+	pubRef blob.Ref
+	pubArm string
+}
+
+type entFetcher struct{ e *openpgp.Entity }
+
+func (f entFetcher) FetchEntity(string) (*openpgp.Entity, error) { return f.e, nil }
+
+type keyFetcher struct {
+	br  blob.Ref
+	arm string
+}
+
+func (k keyFetcher) Fetch(ctx context.Context, br blob.Ref) (io.ReadCloser, uint32, error) {
+	if br != k.br {
+		return nil, 0, os.ErrNotExist
+	}
+	return io.NopCloser(strings.NewReader(k.arm)), uint32(len(k.arm)), nil
+}
+
+// searchShare is what `pk-put share -search=...` writes: a share claim with "search" and no "target".
+func searchShare(it SItem) string {
+	bb := schema.NewShareRef(schema.ShareHaveRef, it.Transitive)
+	bb.SetShareSearch(map[string]any{"constraint": map[string]any{"camliType": "file"}})
+	if it.Expires != 0 {
+		bb.SetShareExpiration(world.Epoch.Add(time.Duration(it.Expires) * time.Second))
+	}
+	t := world.Epoch.Add(time.Duration(10*it.ID) * time.Second)
+	bb.SetClaimDate(t)
+	bb.SetSigner(ownSigner.pubRef)
+	unsigned, err := bb.JSON()
+	if err != nil {
+		fatal("search share:", err)
+	}
+	sr := &jsonsign.SignRequest{
+		UnsignedJSON:  unsigned,
+		Fetcher:       keyFetcher{ownSigner.pubRef, ownSigner.pubArm},
+		EntityFetcher: entFetcher{ownSigner.ent},
+		SignatureTime: t.Add(time.Duration(it.ID) * time.Second),
+	}
+	signed, err := sr.Sign(context.Background())
+	if err != nil {
+		fatal("signing search share:", err)
+	}
+	return signed
 }
 
 // denote is the harness's own model of a file's / bytes tree's contents.
@@ -253,6 +321,11 @@ func runShare(tw *traceWriter, secring, in string, random, rreq int, seed int64,
 	if err != nil {
 		fatal(err)
 	}
+	ownSigner.ent, err = jsonsign.EntityFromSecring("26F5ABDA", secring)
+	if err != nil {
+		fatal(err)
+	}
+	ownSigner.pubRef, ownSigner.pubArm = signers.PubRef[1], signers.PubArm[1]
 	var inp shareInput
 	if random > 0 {
 		rng := rand.New(rand.NewSource(seed))
@@ -502,6 +575,9 @@ func randomWorld(rng *rand.Rand, name string) SWorld {
 			}
 		case k == 7 || k == 8 || k == 9:
 			it := SItem{Kind: "share", Target: pick(any), Transitive: rng.Intn(3) != 0}
+			if rng.Intn(4) == 0 {
+				it.Target, it.Search = 0, true
+			}
 			switch rng.Intn(5) {
 			case 0:
 				it.Expires = 100 + rng.Intn(1000) // long ago
@@ -561,7 +637,7 @@ func randomReq(rng *rand.Rand, sw *SWorld, w int) SReq {
 		next := anyID()
 		if cur != 0 && rng.Intn(5) != 0 {
 			it := sw.Items[cur-1]
-			if len(ch) == 1 && it.Kind == "share" {
+			if len(ch) == 1 && it.Kind == "share" && it.Target != 0 {
 				next = it.Target
 			} else if ls := linksOf(it); len(ls) > 0 {
 				next = ls[rng.Intn(len(ls))]
